@@ -958,7 +958,7 @@ def create_grammar():
     ampersand = Literal('&')
     less_than = Literal('<')
 
-    reserved_words = Regex(r'(END|SEQUENCE|ENUMERATED|WITH)(\s|$)')
+    reserved_words = Regex(r'(END|SEQUENCE|ENUMERATED|WITH)(?![a-zA-Z0-9-])')
 
     # Forward declarations.
     value = Forward()
